@@ -68,8 +68,17 @@ func diffIPTables(a, b tables) string {
 		return fmt.Sprintf("iptables differs at [tables: %s]", extra)
 	}
 	for _, tName := range slices.Sorted(maps.Keys(a)) {
-		aChains := a[tName]
 		bChains := b[tName]
+		// iptables-save shows all built-in chains of a table.
+		// Ignore built-in chain of device without rules and with
+		// default policy, if it isn't given by Netspoc.
+		aChains := maps.Clone(a[tName])
+		for name, c := range a[tName] {
+			if _, found := bChains[name]; !found &&
+				c.policy == "ACCEPT" && len(c.rules) == 0 {
+				delete(aChains, name)
+			}
+		}
 		if extra := checkExtra(aChains, bChains); extra != "" {
 			return fmt.Sprintf("iptables differs at %s: [chains: %s]",
 				tName, extra)
